@@ -632,7 +632,11 @@ func main() {
 			go func(wi int) {
 				defer wg.Done()
 				for i := wi; i < len(scs); i += nw {
+					t0 := time.Now()
 					obs[i] = workers[wi].run(i, scs[i])
+					if os.Getenv("C13_TIMING") != "" {
+						fmt.Fprintf(os.Stderr, "T %s %s %s %d\n", scs[i].Cache, storeFaultName(scs[i]), retrFaultName(scs[i]), time.Since(t0).Milliseconds())
+					}
 				}
 			}(wi)
 		}
